@@ -45,6 +45,9 @@ CHECKS = {
  "C14": ("Differential testing against networkx on expansion graphs built by the harness from members(); Hypothesis-generated hypergraphs x s x weights x subset_types",
          "Exploration with an independent reference: the node-edge bipartite graph and the clique expansion are built by the harness and handed to networkx; components, connectivity, largest/per-node component, all-pairs and single-source path lengths, clustering, projection graph, s-line graph with weights, bipartite graph (directed too) and the encapsulation DAG are compared with what their definitions prescribe.",
          "networkx is trusted; 'empirical' DAG judged by a sandwich (order-dependent filter); empty edges excluded where undefined.", "DESIGN.md#C14"),
+ "C15": ("Differential testing against exhaustive enumeration: Hypothesis-generated hypergraphs built around overlapping maximal faces x min_size x exclude_min_size x normalize",
+         "Exploration with a slower obviously-correct reference: for each generated hypergraph the harness enumerates every subset of every maximal edge and recomputes the edit distance (as a set of distinct missing node sets), the simplicial fraction and the mean face edit distance; range [0,1]-or-NaN and the value 1 on downward-closed inputs are checked. The generator is steered to the redundant-missing-face branch (two maximal faces sharing a missing face) and the evidence counts how often it is reached.",
+         "Normalised edit distance compared with the implementation's documented normalisation; the un-normalised count is the independent statement.", "DESIGN.md#C15"),
  "C05": ("Model-based testing: Hypothesis-generated histories applied step by step to xgi and to reference models transcribed from the docstrings (three classes), metamorphic relations for the degree-preserving moves",
          "Exploration by refinement checking against an executable specification: every op of a generated history is applied to the implementation and to the model (parametric in fresh IDs, prefix semantics for bulk calls) and the observable snapshots are compared after every step, including after rejected calls and their exception types.",
          "The models are my transcription of the documentation; inputs the documentation leaves contradictory are excluded by construction and counted (see assumptions in the evidence).", "DESIGN.md#C05"),
